@@ -84,7 +84,8 @@ FamNotationPart(key) ==
                                                               [BaseTx.posts[2] EXCEPT !.amt = <<NegOf(a, key[2])>>] >>] >>) :
           a \in { x \in BalAmounts(0) : x.comm = key[1] } }
 
-SmallAmts(u) == { [Amt(m, 0, c) EXCEPT !.neg = n] : m \in {1, 2, 150}, c \in {0, 1, 4}, n \in BOOLEAN }
+(* 7 does not divide the total cost 300: a rule that goes through a per-unit price (300 / 7) has to round *)
+SmallAmts(u) == { [Amt(m, 0, c) EXCEPT !.neg = n] : m \in {1, 2, 7, 150}, c \in {0, 1, 4}, n \in BOOLEAN }
 SmallPosts(u) == { [BaseTx.posts[1] EXCEPT !.kind = k, !.amt = a, !.cost = c] :
                    k \in {"real", "paren", "bracket"},
                    a \in {<<>>} \cup { <<x>> : x \in SmallAmts(0) },
@@ -100,7 +101,7 @@ FamSmallPart(p) ==
 (* random transactions, half of them closed by an exactly balancing posting *)
 ValuesB == { <<1, 0>>, <<5, 0>>, <<100, 0>>, <<2500, 0>>, <<1050, 2>>, <<99, 2>>, <<123456, 2>>, <<1234567, 0>> }
 CostVals == { <<2, 0>>, <<15, 1>>, <<99, 2>>, <<1050, 2>> }
-QtyVals  == { <<1, 0>>, <<5, 0>>, <<100, 0>>, <<2500, 0>> }
+QtyVals  == { <<1, 0>>, <<5, 0>>, <<100, 0>>, <<2500, 0>>, <<3, 0>>, <<7, 0>> }
 BalComms == {0, 1, 2, 4, 5, 7}
 
 RandBalPost(x, comm) ==
